@@ -161,6 +161,15 @@ func runCodec(tier string, seed int64, summaryPath, outPath string) {
 	var cfgs []cfg
 	// boundary product, one dimension at a time around a base point (full product is 9^4*13^3*11^2*3: sampled below)
 	base := cfg{subj: 8, data: 0, isig: 64, rsig: 0, cur: 1, sup: 5, weight: 3, vsec: time.Now().Unix(), tsec: time.Now().Unix(), nsec: 1, utf: true}
+	// a contract that moves no spice (data only, amount 0.0) and a pure zero amount: the all-zero sub-message is where "omitted" and
+	// "zero" are easily confused
+	{
+		c := base
+		c.data, c.cur, c.sup = 5, 0, 0
+		cfgs = append(cfgs, c)
+		c.rsig = 64
+		cfgs = append(cfgs, c)
+	}
 	for _, l := range lens {
 		c := base
 		c.subj = l
@@ -248,7 +257,21 @@ func runCodec(tier string, seed int64, summaryPath, outPath string) {
 			if err := proto.Unmarshal(raw, &back); err != nil {
 				viol("proto-unmarshal-failed", map[string]any{"err": err.Error()})
 			} else {
-				got := gossip.VerifMapProtoToVertex(&back)
+				var got accountant.Vertex
+				mapPanic := ""
+				func() {
+					defer func() {
+						if r := recover(); r != nil {
+							mapPanic = fmt.Sprint(r)
+						}
+					}()
+					got = gossip.VerifMapProtoToVertex(&back)
+				}()
+				if mapPanic != "" {
+					viol("proto-mapping-panics", map[string]any{"case": ci, "panic": mapPanic, "what": "the wire form of a vertex this node produced cannot be mapped back (a peer would crash or refuse it)",
+						"currency": v.Transaction.Spice.Currency, "supplementary": v.Transaction.Spice.SupplementaryCurrency, "data_len": len(v.Transaction.Data)})
+					continue
+				}
 				sum.Kinds["proto.roundtrip"]++
 				sum.Nontrivial++
 				if f := sameSigned(&v, &got); f != "" {
